@@ -93,8 +93,14 @@ func verifC10Around(kind int) {
 	const bound = int64(1) << 62
 	cfgTTL := verifInt64("cfgTTL")
 	verifAssume(cfgTTL > -bound && cfgTTL < bound && cfgTTL != 0)
-	b := verifNewBackend(kind, Config{TimeToLive: time.Duration(cfgTTL), ExpirationJitter: -1})
+	// any eviction strategy (LRU/LFU keep usage counters per entry), and the key may already hold an entry with
+	// an expiry of its own: the new write's expiry is that of the new write
+	strategy := EvictionStrategy(verifChoice("strategy", 3))
+	b := verifNewBackend(kind, Config{TimeToLive: time.Duration(cfgTTL), ExpirationJitter: -1, EvictionStrategy: strategy})
 	clk := verifInstallClock(verifT0, verifT1, false)
+	if verifBool("overwritesAnEntry") {
+		b.put([]byte("k"), 3, verifInt64("oldE"), verifInt64("oldC"))
+	}
 	ctx := context.Background()
 	ctxTTL := int64(0)
 	if verifBool("withCtxTTL") {
